@@ -1,9 +1,9 @@
 #!/bin/bash
-# usage: tools/try_seed.sh <ID> <mK> "<check ids>"   (run from a worktree of /verif dedicated to seed testing)
+# usage: [SEED_ROOT=/tmp/seed2-out] tools/try_seed.sh <ID> <mK> "<check ids>"   (run from a worktree of /verif dedicated to seed testing)
 # Confirms a seeded defect (applies to a scratch copy of /repo, suite passes, demo differs) and runs checks against it.
 ID=$1; M=$2; CHECKS=$3
 HERE="$(cd "$(dirname "$0")/.." && pwd)"
-SRC=/tmp/seed-out/$ID/$M
+SRC=${SEED_ROOT:-/tmp/seed-out}/$ID/$M
 SCR=/tmp/seedscr-$ID-$M
 PATCH=$SRC/patch.diff; [ -f $SRC/patch.ported.diff ] && PATCH=$SRC/patch.ported.diff
 rm -rf $SCR; rsync -a --exclude target /repo/ $SCR/ || exit 2
